@@ -164,6 +164,7 @@ func spaces(tier string) []kit.Space {
 			},
 		},
 	}
+	sps = append(sps, grammarSpaces()...)
 	if tier == "thorough" {
 		sps = append(sps, secondOrder(plans[:0:0], seeds)...)
 	}
@@ -246,11 +247,13 @@ func main() {
 		ID:       "C03",
 		Level:    "model_checking",
 		Isolated: true,
-		Rule:     "every first-order mutant of every seed program: each AST position (expression slots, declaration names, statement lists, declaration list, calls, returns, assignments, value specs, function signatures, binary expressions) x each applicable operator of verif/gen/gomutants, plus the deletion of each token; thorough adds, for 5 seeds, every second-order mutant whose first mutation is structural (statement/declaration deletion and duplication, renamed declarations, arities of calls, returns, assignments and signatures) and whose second mutation is any operator. A case is non-trivial when go/types' verdict is usable (all but mutants that are valid only for a Go version newer than Scriggo's language level); distinct cases are counted by the hash of the mutant text",
+		Rule:     "every first-order mutant of every seed program: each AST position (expression slots, declaration names, statement lists, declaration list, calls, returns, assignments, value specs, function signatures, binary expressions) x each applicable operator of verif/gen/gomutants, plus the deletion of each token; thorough adds, for 5 seeds, every second-order mutant whose first mutation is structural (statement/declaration deletion and duplication, renamed declarations, arities of calls, returns, assignments and signatures) and whose second mutation is any operator. Both tiers also evaluate the program families of verif/gen/gomutants.Grammar, each a small product of alternatives judged by go/types: terminating statements (18 final statements x 18 trailing statements, in a function and in a function literal), := on a name declared as constant / variable / type / parameter / result in the same, an outer or the package scope, constant indexes and slice bounds of arrays, pointers to arrays, slices and strings, duplicate keys of array, slice and map literals (pairs of keys for 12 map types), untyped nil in every operand position, initialisation dependencies (16 shadowing prefixes x 16 reference contexts x 3 declaration forms), duplicate cases of single, nested, sequential and function-literal switches for 11 tag kinds and for type switches, multi-package programs (unnamed types across packages, import declarations), assignability of defined channel types (8 contexts x 8 targets x 11 values), declarations with unbalanced names and values at package and function level, value- and pointer-receiver methods of a native package's types on 33 operand forms x 5 uses; and importers that fail (7 error flavours x 4 importer shapes x 7 import forms, programs and templates). A case is non-trivial when go/types' verdict is usable (all but mutants that are valid only for a Go version newer than Scriggo's language level); distinct cases are counted by the hash of the mutant text",
 		Assumptions: []string{
 			"reference = go/parser + go/types of the toolchain that builds the check, GoVersion go1.25, no importer; soft errors (unused variable/import/label) are rejections",
 			"Scriggo's supported subset = Go 1.17 language level without generics: a mutant that go/types accepts with GoVersion go1.25 but rejects with go1.17 is outside the subset and skipped",
-			"programs are single-file, package main, without imports",
+			"mutants are single-file programs, package main, without imports; the grammar families also use go.mod programs with several packages (go/types with a source importer) and the native package host, described to go/types by the source twin gomutants.HostTwin",
+			"a failing importer: from the doc comments (Importer: 'If an error occurs it returns the error'; Build: 'If a build error occurs, it returns a *BuildError') the result must be a *BuildError at the import declaration carrying the importer's message; wrapping the importer's error in addition is allowed, returning it as is is not",
+			"valid recursive types are a documented limit of Scriggo and are not generated",
 		},
 		Spaces: spaces,
 		Budget: map[string]time.Duration{"thorough": 30 * time.Minute},
